@@ -32,8 +32,8 @@ Example C09_session_nonvacuous :
   let o := {| o_helo := fun a => negb (existsb (N.eqb 32) a); o_addr := fun _ _ => AP_nobracket;
               o_ext := fun _ => Ext_ok 0 0 None; o_relay := 0%Z; o_mx := fun _ => 0; o_qq := fun _ => QQ_ok;
               o_databytes := 0%N; o_liphost := []; o_check2822 := false; o_authperm := true;
-              o_auth := fun _ => Auth_ok [117]%N; o_trace := fun _ _ _ _ _ _ => [];
-              o_submission := false; o_subm_date := []; o_subm_stamp := []; o_msgidhost := [] |} in
+              o_auth := fun _ => Auth_ok [117]%N; o_trace := fun _ _ _ _ _ _ _ => [];
+              o_submission := false; o_subm_date := []; o_subm_stamp := []; o_msgidhost := []; o_tls := false; o_tlsverify := TV_no |} in
   let helo := [72;69;76;79;32;120;13;10]%N in let badehlo := [69;72;76;79;32;120;32;121;13;10]%N in
   let ehlo := [69;72;76;79;32;120;13;10]%N in let rset := [82;83;69;84;13;10]%N in
   let auth := [65;85;84;72;32;80;76;65;73;78;32;120;13;10]%N in
